@@ -23,7 +23,13 @@ type entry struct {
 var menu []entry
 
 func add(ast spec.Expr, flags string) {
-	src := spec.Render(ast)
+	if ab := spec.RenderAbbrev(ast); ab != spec.Render(ast) {
+		addSrc(ab, ast, flags)
+	}
+	addSrc(spec.Render(ast), ast, flags)
+}
+
+func addSrc(src string, ast spec.Expr, flags string) {
 	g := xsel.MustBuildExpr(src)
 	e := entry{src: src, ast: ast, g: &g}
 	for _, f := range flags {
@@ -147,14 +153,38 @@ func RunPredicates() {
 		settings = append(settings, xsel.WithVariable("s", xsel.String(s)))
 	}
 	if m.v {
-		// all element nodes in document order
+		// all element nodes; the reference model holds them in document order,
+		// the library receives them in one of four orders a caller may produce
+		// (document order, reversed, evens then odds, rotated)
 		var set []int
-		var ns xsel.NodeSet
 		for i, n := range b.Doc.Nodes {
 			if n.Kind == spec.Elem {
 				set = append(set, i)
-				ns = append(ns, b.Cursors[i])
 			}
+		}
+		order := make([]int, 0, len(set))
+		switch nd.Choice(4) {
+		case 0:
+			order = append(order, set...)
+		case 1:
+			for k := len(set) - 1; k >= 0; k-- {
+				order = append(order, set[k])
+			}
+		case 2:
+			for k := 1; k < len(set); k += 2 {
+				order = append(order, set[k])
+			}
+			for k := 0; k < len(set); k += 2 {
+				order = append(order, set[k])
+			}
+		case 3:
+			for k := range set {
+				order = append(order, set[(k+len(set)/2)%len(set)])
+			}
+		}
+		var ns xsel.NodeSet
+		for _, i := range order {
+			ns = append(ns, b.Cursors[i])
 		}
 		bind.Vars["v"] = spec.Val{T: spec.TSet, Set: set}
 		settings = append(settings, xsel.WithVariable("v", ns))
